@@ -93,6 +93,10 @@ def run(prop, tier, seed, scratch, replay=None):
                                "-every", every, "-offset", seed % every, "-workers", vlib.NCPU], timeout=3600)
         wl = vlib.load_report(wrep)
         res.add_report(wl)
+    # binding self-test: the parts of the expectation this property asserts, perturbed, must be noticed
+    fields = {"C01": ["bal", "utxo", "watch"], "C02": ["bal", "unmined"], "C12": ["leases", "bal"], "C13": ["details", "unmined"]}[prop]
+    st = vlib.binding_selftest(scratch, drv, lambda i, o: ["-in", i, "-graphs", graphs, "-out", o, "-prop", prop, "-workers", vlib.NCPU],
+                               traces, fields, where=lambda tr: len(tr.get("steps") or []) >= 3)
     sp = None
     if prop in ("C01", "C13"):
         # wallet-level pass: spec/Spend.tla walks (receipts on several accounts and key scopes, blocks, created
@@ -117,6 +121,7 @@ def run(prop, tier, seed, scratch, replay=None):
         "replayed_steps": rep["steps"], "simulated_behaviours": sim["ntraces"],
         "tlc_bfs_wall_s": bfs["wall_s"], "checker_cmd": bfs["cmd"],
     }
+    res.coverage["binding_selftest"] = st
     if cov:
         res.coverage["coverage_run"] = cov
     if impl:
@@ -125,8 +130,9 @@ def run(prop, tier, seed, scratch, replay=None):
     if sp:
         res.coverage["wallet_level_pass"] = {"spec": "spec/Spend.tla (random walks)", "behaviours_replayed": sp["traces"],
                                               "comparisons": sp["checks"], "distinct_nontrivial": sp["distinct_nontrivial"],
-                                              "observed_through": "CalculateBalance, ListUnspent" if prop == "C01"
-                                              else "GetTransactions (ascending and descending), ListAllTransactions"}
+                                              "observed_through": "CalculateBalance, CalculateAccountBalances, ListUnspent" if prop == "C01"
+                                              else "GetTransactions (ascending and descending), ListAllTransactions",
+                                              "binding_selftest": sp.get("binding_selftest")}
         res.coverage["traces_validated_against_impl"] += sp["traces"]
     if wl:
         res.coverage["wallet_level_pass"] = {"behaviours_replayed": wl["traces"], "comparisons": wl["checks"],
